@@ -27,6 +27,7 @@ func runC01(p *core.Prog, r *core.Result) {
 		"R1.9 a source file is reported up to date only on equality of its recorded sum with a hash of its current contents computed during that very check (no cache, size or modification-time shortcut in between)",
 		"R1.12 every load builds its own target objects: what is registered in Project.targets is a runTarget allocated at the registration around a target object allocated by the registering function - never one carried over from an earlier load, whose snapshot of the persisted record is older than the record",
 		"R1.13 a function's environment counts as unchanged only where starlark.EqualDepth/Equal of the whole recorded and the whole current environment reported equality (not an entry-by-entry walk over one side)",
+		"R1.14 where the consumer of a source's content sum reads a 'does not exist' error as 'the source is missing' (empty sum), the directory hashing function never hands up such an error from one of its entries: every return of an entry's error is on the edge where os.IsNotExist / errors.Is(…, fs.ErrNotExist) is false - otherwise one dangling symbolic link makes the whole directory hash to the empty sum and no later edit in it is ever seen",
 		"R1.8 loading a target writes back the record read with every field but the documentation unchanged (type-driven, field by field): a failed target's pending re-run survives any number of loads that do not run it",
 	}
 	r.NotDecided = []string{"equality of the files produced with a from-scratch build for any particular history", "that the Starlark compiler's ModuleEnv captures everything a function can observe", "completeness of the environment (decided under C08 R8.5) and injectivity of the codec (decided under C07)"}
@@ -312,6 +313,9 @@ func runC01(p *core.Prog, r *core.Result) {
 
 	// ---- R1.13 the environment verdict is whole-value equality
 	checkEnvVerdictWholeEquality(p, r, "R1.13")
+
+	// ---- R1.14 a missing entry does not make its directory look missing
+	checkDirEntryErrors(p, r, "R1.14")
 
 	// ---- R1.12 every load builds its own target objects
 	checkTargetsFreshPerLoad(p, r, "R1.12")
@@ -816,6 +820,127 @@ func checkDirHash(p *core.Prog, r *core.Result, rule string) {
 		ordered := osReadDir || (listing != nil && sortedAfter(listing))
 		r.Check(ordered, rule, fname(f)+"#deterministic-order", p.Pos(f.Pos()), "entries are hashed in sorted order", "entries are hashed in the order (*os.File).ReadDir returns them, which is file-system dependent: the same tree can hash differently (spurious rebuilds) ")
 	}
+}
+
+// checkDirEntryErrors implements R1.14 (a contradiction rule: the consumer's belief "not-exist means this source is
+// missing" against what the directory hasher can return).
+func checkDirEntryErrors(p *core.Prog, r *core.Result, rule string) {
+	notExistArg := func(c ssa.CallInstruction) ssa.Value {
+		if core.IsCallTo(c, "os", "IsNotExist") && len(c.Common().Args) == 1 {
+			return c.Common().Args[0]
+		}
+		if core.IsCallTo(c, "errors", "Is") && len(c.Common().Args) == 2 {
+			if ld, ok := c.Common().Args[1].(*ssa.UnOp); ok {
+				if g, ok := ld.X.(*ssa.Global); ok && (g.Name() == "ErrNotExist") {
+					return c.Common().Args[0]
+				}
+			}
+		}
+		return nil
+	}
+	// consumers: os.IsNotExist(err) on the error of a module sum function
+	sumFns := map[*ssa.Function]bool{}
+	nCons := 0
+	for _, fn := range p.ModuleFuncs() {
+		if fn.Pkg == nil || fn.Pkg.Pkg.Path() != pkgRoot {
+			continue
+		}
+		for _, c := range core.Calls(fn) {
+			a := notExistArg(c)
+			if a == nil {
+				continue
+			}
+			e, ok := a.(*ssa.Extract)
+			if !ok {
+				continue
+			}
+			call, ok := e.Tuple.(*ssa.Call)
+			if !ok {
+				continue
+			}
+			h := core.Callee(call)
+			if h == nil || h.Pkg == nil || h.Pkg.Pkg.Path() != pkgRoot || h.Blocks == nil {
+				continue
+			}
+			res := h.Signature.Results()
+			if res.Len() != 2 || res.At(0).Type().String() != "string" {
+				continue
+			}
+			// only sums: the function (or what it calls) feeds a hash
+			feeds := false
+			for g := range staticClosure(p, h) {
+				for _, cc := range core.Calls(g) {
+					if _, ok := hashFeed(cc); ok {
+						feeds = true
+					}
+					if cal := core.Callee(cc); cal != nil && strings.Contains(core.CalleeKey(cal), "SHA256") {
+						feeds = true
+					}
+				}
+			}
+			if !feeds {
+				continue
+			}
+			if fn != h && !staticClosure(p, h)[fn] {
+				nCons++
+			}
+			sumFns[h] = true
+		}
+	}
+	r.Floor(rule, nCons, 1, "consumers that read a not-exist error of a content sum as 'missing'")
+	n := 0
+	var roots []*ssa.Function
+	for h := range sumFns {
+		roots = append(roots, h)
+	}
+	sort.Slice(roots, func(i, j int) bool { return roots[i].String() < roots[j].String() })
+	closure := staticClosure(p, roots...)
+	var fns []*ssa.Function
+	for f := range closure {
+		fns = append(fns, f)
+	}
+	sort.Slice(fns, func(i, j int) bool { return fns[i].String() < fns[j].String() })
+	for _, f := range fns {
+		if f.Pkg == nil || f.Pkg.Pkg.Path() != pkgRoot {
+			continue
+		}
+		lists := false
+		for _, c := range core.Calls(f) {
+			if core.IsMethod(c, "os", "File", "ReadDir") || core.IsCallTo(c, "os", "ReadDir") || core.IsMethod(c, "os", "File", "Readdir") || core.IsMethod(c, "os", "File", "Readdirnames") {
+				lists = true
+			}
+		}
+		if !lists {
+			continue
+		}
+		k := 0
+		for _, ret := range core.ReturnsOf(f) {
+			vals := core.RetVals(ret)
+			if len(vals) != 2 || core.IsNilConst(vals[1]) {
+				continue
+			}
+			e, ok := vals[1].(*ssa.Extract)
+			if !ok {
+				continue
+			}
+			call, ok := e.Tuple.(*ssa.Call)
+			if !ok || !closure[core.Callee(call)] || core.Callee(call) == nil {
+				continue
+			}
+			if res := core.Callee(call).Signature.Results(); res.Len() != 2 || res.At(0).Type().String() != "string" {
+				continue
+			}
+			// the error of an entry's sum is handed up
+			n++
+			k++
+			excluded := p.FactsAt(ret).Find(func(cv ssa.Value, v bool) bool {
+				c, ok := cv.(*ssa.Call)
+				return ok && !v && notExistArg(c) == ssa.Value(e)
+			})
+			r.Check(excluded, rule, fmt.Sprintf("%s#entry-error-%d", fname(f), k), p.InstrPos(ret), "an entry's error is handed up only where it is not a 'does not exist' error", "the error of one entry's sum is returned as the directory's error even when it says 'does not exist': the consumer reads that as 'the source is missing' and takes the empty sum, so a directory with one dangling symbolic link hashes to the same sum whatever it contains and no edit in it is ever noticed")
+		}
+	}
+	r.Floor(rule, n, 1, "returns of the directory hasher that hand up an entry's error")
 }
 
 // checkEnvVerdictWholeEquality (R1.13, shared as R8.12 and R15.9): diffEnv reports "unchanged" only on the edge where
